@@ -37,9 +37,13 @@ def instances(tier, seed):
                     continue
                 if not th and (n + ti) % 4 != 0:        # quick: one tree per (element, attachment), rotating
                     continue
+                if th and (n + ti) % 3 != 0:            # thorough: every third tree, rotating
+                    continue
                 if el == "LinearBushing" and not th and att in ("21", "20", "22"):
                     continue
                 out.append(dict(name="%s|%s|%s" % (el, t, att), args=[el, t, "0", att, "law"], bushing=(el == "LinearBushing")))
+                if el == "LinearBushing":
+                    out[-1]["base_points"] = 2
             n += 1
     return out
 
@@ -48,7 +52,7 @@ def free_sets(inst, tr, tier, rng):
     lin = [n for n, kind, _, _ in tr.inputs if kind == "lin"]
     if inst.get("bushing"):
         return [lin]
-    sets = cat.coordinate_free_sets(inst, tr, tier, rng, always=())
+    sets = cat.coordinate_free_sets(inst, tr, tier, rng, always=(), maxsets=3 if tier == "quick" else 4)
     return [lin + [n for n in s if n not in lin] for s in sets]
 
 
